@@ -194,3 +194,37 @@ func VerifH_C11_overlapping_poll_during_write() {
 		verif.Assert(w.rec.count("error") >= 1, "and reported as a transport error")
 	}
 }
+
+// VerifH_C11_close_aborts_data_request: the session is closed from another goroutine while
+// a data request's payload is still being processed (the application's handler is running),
+// over a slow connection: the close aborts the data request (429) and that response is
+// still being written when the handler returns and the transport acknowledges the request.
+// The data request must receive exactly one response.
+func VerifH_C11_close_aborts_data_request() {
+	w := newPollWorld("4")
+	first := w.request("POST", "data", c11Bodies[verif.Choose(2)])
+	w.p.On("packet", func(...any) { verif.Yield("application handler running") })
+	injected := false
+	verif.Event("the session is closed from another goroutine over a slow connection", func() {
+		injected = true
+		first.w.hold = make(chan struct{})
+		go w.p.Close(func() {})
+		verif.Settle() // the closing goroutine runs until the connection makes it wait
+		hold := first.w.hold
+		go func() {
+			// the connection drains a little later, when everybody else is waiting
+			verif.Settle()
+			verif.Settle()
+			close(hold)
+		}()
+	})
+	verif.InjectBudget(1)
+	w.p.OnRequest(first.ctx)
+	verif.InjectBudget(0)
+	verif.Settle()
+	verif.Settle()
+	verif.Assert(len(first.w.status) == 1 && first.w.writeCalls == 1, "a data request receives exactly one response, also when the close aborts it while it is being processed")
+	if !injected {
+		verif.Assert(first.w.status[0] == 200, "and it is 'ok' when nothing interfered")
+	}
+}
